@@ -159,7 +159,7 @@ def check(ctx):
     c07.r_value_to_structural(ctx, 'R05.7')
     c07.r_sum_leaves(ctx)
     c07.r_shared_callee(ctx)
-    c07.r_layout_tables(ctx, 'R05.8')
+    c07.r_layout_tables(ctx, 'R05.8', c07.LAYOUT_CONSTRUCT, 20)
     if ctx.tier == 'thorough':
         from .. import witness
         witness.run(ctx, 'R05.W', ['W1', 'W3'])
